@@ -159,12 +159,12 @@ func VerifC10RegisterPort() {
 			zzverif.Assert(ctl.portsUsedNum == usedBefore+1 && ctl.portsUsedNum <= max, "C09.quota.never-exceeds-max")
 		}
 		p, ok := svr.pxyManager.GetByName(name)
-		zzverif.Assert(ok && p != nil && ctl.proxies[name] == p, "C12.reg.name-registered-to-this-session")
+		zzverif.Assert(ok && p != nil && zzCtlProxy(ctl, name) == p, "C12.reg.name-registered-to-this-session")
 		// close: everything released, other owners untouched
 		_ = ctl.CloseProxy(&msg.CloseProxy{ProxyName: name})
 		zzverif.Assert(pm.ZZIsFree(real), "C10.close.port-free-again")
 		_, still := svr.pxyManager.GetByName(name)
-		zzverif.Assert(!still && ctl.proxies[name] == nil, "C10.close.name-released")
+		zzverif.Assert(!still && zzCtlProxy(ctl, name) == nil, "C10.close.name-released")
 		if max > 0 {
 			zzverif.Assert(ctl.portsUsedNum == usedBefore, "C10.close.quota-restored")
 		}
@@ -182,7 +182,7 @@ func VerifC10RegisterPort() {
 		zzverif.Reach("C10.reg.refused")
 		zzverif.Assert(pm.ZZIsFree(1000) == free0 && pm.ZZIsFree(1001) == free1, "C10.reg.failed-registration-releases-port")
 		zzverif.Assert(ctl.portsUsedNum == usedBefore, "C10.reg.failed-registration-restores-quota")
-		_, inMine := ctl.proxies[name]
+		inMine := zzCtlProxy(ctl, name) != nil
 		zzverif.Assert(!inMine, "C10.reg.failed-registration-not-in-session")
 		if !(name == "dup" && otherHolds) {
 			_, ok := svr.pxyManager.GetByName(name)
@@ -200,7 +200,7 @@ func VerifC10RegisterPort() {
 	if otherHolds {
 		zzverif.Assert(pm.ZZOwner(1000) == "dup", "C09.reg.other-owner-undisturbed")
 		p, ok := svr.pxyManager.GetByName("dup")
-		zzverif.Assert(ok && other.proxies["dup"] == p, "C12.reg.incumbent-keeps-working")
+		zzverif.Assert(ok && zzCtlProxy(other, "dup") == p, "C12.reg.incumbent-keeps-working")
 	}
 }
 
@@ -215,7 +215,7 @@ func VerifC09UDPDoubleClose() {
 	c2, _ := zzControl(svr, "r2", 0)
 	_, err := c1.RegisterProxy(&msg.NewProxy{ProxyName: "u1", ProxyType: "udp", RemotePort: 1000})
 	zzverif.Assume(err == nil)
-	p1 := c1.proxies["u1"]
+	p1 := zzCtlProxy(c1, "u1")
 	_ = c1.CloseProxy(&msg.CloseProxy{ProxyName: "u1"})
 	zzverif.Assert(udp.ZZIsFree(1000), "C10.udp.port-free-after-close")
 	_, err = c2.RegisterProxy(&msg.NewProxy{ProxyName: "u2", ProxyType: "udp", RemotePort: 1000})
